@@ -246,7 +246,8 @@ def apply_param_filter(el, prop):
 
     for subel in el:
         if subel.tag == "{urn:ietf:params:xml:ns:carddav}text-match":
-            if not apply_text_match(subel, value):
+            # a parameter can have several values
+            if not any(apply_text_match(subel, v) for v in value):
                 return False
         else:
             raise AssertionError("unknown tag %r in param-filter", subel.tag)
